@@ -55,7 +55,7 @@ func runC03(c *fw.Ctx) {
 	}
 	r := c.Rand("try")
 	pg := gen.NewPG(r, gen.ProgOpts{Try: true, GoErrors: true, Faults: 5, MaxDepth: c.Pick(5, 7)})
-	for i := 0; i < c.PerShard(c.Pick(60000, 2000000)); i++ {
+	for i := 0; i < c.PerShard(c.Pick(400000, 6000000)); i++ {
 		forms := pg.Program()
 		if i < 2 {
 			c.Sample(progText(forms))
